@@ -217,35 +217,37 @@ def check_props(pid, extra_targets=()):
     return res
 
 
-def model_bin():
-    """The extracted OCaml model (built by coq/Makefile.local rules or tools/setup.sh)."""
-    p = os.path.join(WORK, "ocaml", "vmodel")
-    build_model()
-    return p
+def model_bin(area="base"):
+    """The extracted OCaml model of an area (coq/Extract_<area>.v -> extracted/Model_<area>.ml,
+    handlers in ocaml/vmodel_<area>.ml)."""
+    return build_model(area)
 
 
-def build_model():
-    """Extract (coq/Extract.v -> _work/ocaml/*.ml) and compile the OCaml driver; incremental."""
-    od = os.path.join(WORK, "ocaml")
+def build_model(area="base"):
+    """Extract and compile the OCaml driver of an area; incremental."""
+    od = os.path.join(WORK, "ocaml", area)
     os.makedirs(od, exist_ok=True)
-    rc, log = coq_make(["Extract.vo"])
+    rc, log = coq_make(["Extract_%s.vo" % area])
     if rc != 0:
-        raise BuildError("Coq model does not build:\n" + log[-5000:])
-    with Lock("ocaml"):
-        srcs = [os.path.join(COQ, "extracted", "Model.ml"), os.path.join(COQ, "extracted", "Model.mli"),
-                os.path.join(ROOT, "ocaml", "vmodel.ml")]
+        raise BuildError("Coq model (area %s) does not build:\n%s" % (area, log[-5000:]))
+    with Lock("ocaml-" + area):
+        ml = os.path.join(COQ, "extracted", "Model_%s.ml" % area)
+        srcs = [ml, ml + "i", os.path.join(ROOT, "ocaml", "helpers.ml"), os.path.join(ROOT, "ocaml", "vmodel_%s.ml" % area),
+                os.path.join(ROOT, "ocaml", "mainloop.ml")]
         out = os.path.join(od, "vmodel")
         if os.path.exists(out) and all(os.path.getmtime(s) <= os.path.getmtime(out) for s in srcs):
             return out
-        for s in srcs:
-            shutil.copy(s, od)
-        rc, o, e = sh(["ocamlfind", "ocamlopt", "-O3", "-w", "-a", "-package", "str", "-linkpkg", "Model.mli", "Model.ml", "vmodel.ml", "-o", "vmodel"],
-                      cwd=od, timeout=600)
+        shutil.copy(srcs[0], od)
+        shutil.copy(srcs[1], od)
+        with open(os.path.join(od, "main.ml"), "w") as f:
+            f.write("open Model_%s\n" % area)
+            for s in srcs[2:]:
+                f.write(open(s).read() + "\n")
+        mod = "Model_%s" % area
+        cmd = ["ocamlfind", "ocamlopt", "-O3", "-w", "-a", "-package", "str", "-linkpkg", mod + ".mli", mod + ".ml", "main.ml", "-o", "vmodel"]
+        rc, o, e = sh(cmd, cwd=od, timeout=900)
         if rc != 0:
-            rc, o, e = sh(["ocamlfind", "ocamlopt", "-w", "-a", "-package", "str", "-linkpkg", "Model.mli", "Model.ml", "vmodel.ml", "-o", "vmodel"],
-                          cwd=od, timeout=600)
-        if rc != 0:
-            raise BuildError("OCaml build of the extracted model failed:\n" + (o + e)[-4000:])
+            raise BuildError("OCaml build of the extracted model (area %s) failed:\n%s" % (area, (o + e)[-4000:]))
     return out
 
 
@@ -272,7 +274,7 @@ class Check:
     def __init__(self, pid, tier, seed):
         self.pid, self.tier, self.seed = pid, tier, seed
         self.t0 = time.time()
-        self.rng = random.Random(seed * 1000003 + int(pid[1:]))
+        self.rng = random.Random(seed * 1000003 + int(hashlib.md5(pid.encode()).hexdigest()[:6], 16))
         self.known, self.fixed = load_known()
         self.violations = []      # unlisted
         self.known_hits = {}      # key -> what
